@@ -68,7 +68,16 @@ var hostileStrings = []string{
 }
 
 func genString(t *rapid.T, label string) string {
-	switch rapid.IntRange(0, 9).Draw(t, label+"_kind") {
+	switch rapid.IntRange(0, 11).Draw(t, label+"_kind") {
+	case 10, 11:
+		// blanks at the edges (only quoting protects them) or blanks only
+		lead := genBlanks(t, edgeBlanks, label+"_padl")
+		trail := genBlanks(t, edgeBlanks, label+"_padr")
+		core := rapid.SampledFrom([]string{"", "a", "padded", "in side", "1", ",", ":"}).Draw(t, label+"_core")
+		if lead+trail == "" {
+			lead = " "
+		}
+		return lead + core + trail
 	case 0, 1:
 		return rapid.String().Draw(t, label+"_any")
 	case 2:
@@ -94,6 +103,20 @@ func genString(t *rapid.T, label string) string {
 	}
 }
 
+// blanks used at the edges of generated strings: everything
+// strings.TrimSpace would remove.
+const edgeBlanks = " \t\n\r\v\f\u0085\u00a0\u2003\u3000"
+
+func genBlanks(t *rapid.T, set string, label string) string {
+	rs := []rune(set)
+	n := rapid.IntRange(0, 3).Draw(t, label+"_n")
+	var b strings.Builder
+	for i := 0; i < n; i++ {
+		b.WriteRune(rapid.SampledFrom(rs).Draw(t, label))
+	}
+	return b.String()
+}
+
 // needsQuoting: the string would not survive being written bare between
 // commas / colons (it is empty or has a byte outside [A-Za-z0-9_]).
 func needsQuoting(s string) bool {
@@ -115,6 +138,16 @@ func stringLabels(set map[string]bool, s string) {
 	}
 	if !utf8.ValidString(s) {
 		set["str:invalid-utf8"] = true
+	}
+	if s != "" {
+		first, _ := utf8.DecodeRuneInString(s)
+		last, _ := utf8.DecodeLastRuneInString(s)
+		if unicode.IsSpace(first) || unicode.IsSpace(last) {
+			set["str:edge-blank"] = true
+		}
+		if strings.TrimSpace(s) == "" {
+			set["str:only-blanks"] = true
+		}
 	}
 	for _, r := range s {
 		switch {
